@@ -311,6 +311,119 @@ class BodyView:
         self._ctrl[bb] = out
         return out
 
+    _PURE_RET = ("bool", "subtle::Choice", "const_choice::ConstChoice", "()", "!", "core::fmt::Arguments<'_>",
+                 "core::cmp::Ordering", "core::option::Option<core::cmp::Ordering>")
+
+    def abort_guard(self, bb):
+        """Is the SwitchInt ending block bb an abort guard: one of its outcomes owns an exclusive region
+        that only evaluates further conditions and then diverges in a panic (assert!/debug_assert!/
+        expect-style checks, including the short-circuit branches inside their conditions)?"""
+        if not hasattr(self, "_ag"):
+            self._ag = {}
+        if bb in self._ag:
+            return self._ag[bb]
+        res = False
+        t = self.blocks[bb]["term"]
+        if t["k"] == "switch":
+            succs = list(dict.fromkeys(t["t"]))
+            reach = {x: self.reach_set(x) for x in succs}
+            for x in succs:
+                others = set()
+                for o in succs:
+                    if o != x:
+                        others |= reach[o]
+                excl = reach[x] - others
+                if not excl:
+                    continue
+                has_panic = False
+                pure = True
+                for y in excl:
+                    ty = self.blocks[y]["term"]
+                    if ty["k"] == "call":
+                        name = callee_name(ty) or ""
+                        if ty["t"] is None or name.startswith("core::panicking::"):
+                            has_panic = True
+                            continue
+                        rty = self.locals[ty["dst"][0]] if not ty["dst"][1] else "?"
+                        if rty not in self._PURE_RET and not name.startswith("core::fmt::"):
+                            pure = False
+                    elif ty["k"] == "unreach":
+                        continue
+                    for st in self.blocks[y]["stmts"]:
+                        if st[0] == "a" and has_deref(st[1][1]):
+                            pure = False
+                if has_panic and pure:
+                    res = True
+                    break
+        self._ag[bb] = res
+        return res
+
+    def feeds_only_abort_guards(self, bb, also=None):
+        """Does the value produced by the call ending block bb flow (through copies, negations,
+        comparisons and truth-value conversions) only into abort-guard switches?"""
+        t = self.blocks[bb]["term"]
+        if t["k"] != "call" or t["dst"][1]:
+            return False
+        derived = {t["dst"][0]}
+        allowed_calls = {"not", "is_true_vartime", "to_bool_vartime", "from", "into", "unwrap_u8", "eq", "ne"}
+        used_in_guard = False
+        changed = True
+        while changed:
+            changed = False
+            for bi, blk in enumerate(self.blocks):
+                if blk["cleanup"]:
+                    continue
+                for s in blk["stmts"]:
+                    if s[0] != "a":
+                        continue
+                    rv = s[2]
+                    ops = []
+                    if rv[0] in ("use", "repeat"):
+                        ops = [rv[1]]
+                    elif rv[0] == "cast":
+                        ops = [rv[2]]
+                    elif rv[0] == "bin":
+                        ops = [rv[2], rv[3]]
+                    elif rv[0] == "un":
+                        ops = [rv[2]]
+                    elif rv[0] == "agg":
+                        ops = list(rv[4])
+                    srcs = {o[1][0] for o in ops if o[0] in ("c", "m")}
+                    if rv[0] in ("ref", "rawptr"):
+                        srcs.add(rv[2][0])
+                    elif rv[0] in ("cfd", "discr"):
+                        srcs.add(rv[1][0])
+                    if srcs & derived:
+                        if rv[0] == "agg" or s[1][1] or s[1][0] == 0:
+                            return False
+                        if s[1][0] not in derived:
+                            derived.add(s[1][0])
+                            changed = True
+                tt = blk["term"]
+                if tt["k"] == "call" and bi != bb:
+                    if any(a[0] in ("c", "m") and a[1][0] in derived for a in tt["args"]):
+                        seg = last_seg(callee_decl(tt))
+                        name = callee_name(tt) or ""
+                        if name.startswith("core::panicking::") or name.startswith("core::fmt::"):
+                            continue
+                        if seg in allowed_calls and not tt["dst"][1]:
+                            if tt["dst"][0] not in derived:
+                                derived.add(tt["dst"][0])
+                                changed = True
+                        else:
+                            return False
+        for bi, blk in enumerate(self.blocks):
+            if blk["cleanup"]:
+                continue
+            tt = blk["term"]
+            if tt["k"] == "switch" and tt["op"][0] in ("c", "m") and tt["op"][1][0] in derived:
+                if not self.abort_guard(bi) and not (also is not None and also(self, bi)):
+                    return False
+                used_in_guard = True
+            if tt["k"] == "ret" and 0 in derived:
+                return False
+        return used_in_guard
+
     def value_controlling_switches(self, bb):
         """Controlling switches with at least two non-diverging successors: only those make a value
         computed in bb vary with the branch condition (an abort guard does not: if execution continues,
